@@ -275,7 +275,15 @@ def check_empty_stack_form(ctx, rep, f, rule='R-PDAFORM.drain'):
     adds = [c for c in walk_no_nested(f.node) if isinstance(c, ast.Call) and isinstance(c.func, ast.Attribute) and c.func.attr == 'add'
             and isinstance(c.func.value, ast.Subscript) and isinstance(c.func.value.slice, ast.Tuple) and len(c.func.value.slice.elts) == 3]
     gamma_names = {'Gamma'} | {n.targets[0].id for n in walk_no_nested(f.node) if isinstance(n, ast.Assign) and isinstance(n.targets[0], ast.Name) and u(n.value).endswith('.Gamma')}
-    loops_over_gamma = [n for n in walk_no_nested(f.node) if isinstance(n, ast.For) and names_in(n.iter) & gamma_names]
+    def _iter_names(e):
+        # names of the iterable, through locals that hold a hoisted set expression (other = Gamma - {bottom})
+        out = set(names_in(e))
+        for _ in range(3):
+            for nm in list(out):
+                for d in single_def(f, nm):
+                    out |= set(names_in(d))
+        return out
+    loops_over_gamma = [n for n in walk_no_nested(f.node) if isinstance(n, ast.For) and _iter_names(n.iter) & gamma_names]
     depends = False
     for lp in loops_over_gamma:
         for c in adds:
@@ -296,7 +304,7 @@ def check_empty_stack_form(ctx, rep, f, rule='R-PDAFORM.drain'):
                 targets.add(u(tgt))
                 # the source ranges over an enclosing loop whose iterable mentions the target state
                 for outer in walk_no_nested(f.node):
-                    if isinstance(outer, ast.For) and any(x is lp for x in ast.walk(outer)) and u(outer.target) == u(src) and u(tgt) in names_in(outer.iter):
+                    if isinstance(outer, ast.For) and any(x is lp for x in ast.walk(outer)) and u(outer.target) == u(src) and u(tgt) in _iter_names(outer.iter):
                         ok_self = True
                 if u(src) == u(tgt):
                     ok_self = True
